@@ -180,6 +180,34 @@ func DoScript(wrap func(http.Handler) http.Handler, req Req, preset []HV, script
 	}
 }
 
+// Server keeps the handler returned by ONE Wrap call and serves every request
+// through it, like a real server does (Do/DoScript with m.Wrap call Wrap anew
+// for every request, which would hide state kept per wrapped handler).
+// Server.Wrap has the signature Do expects. The inner handler for a request
+// is picked when that request enters the wrapped handler, so a request served
+// from inside another request's handler (see C11) is dispatched correctly.
+// Not for concurrent use.
+type Server struct {
+	h    http.Handler
+	next http.Handler
+}
+
+func NewServer(wrap func(http.Handler) http.Handler) *Server {
+	s := &Server{}
+	s.h = wrap(http.HandlerFunc(func(w http.ResponseWriter, r *http.Request) {
+		inner := s.next
+		inner.ServeHTTP(w, r)
+	}))
+	return s
+}
+
+func (s *Server) Wrap(inner http.Handler) http.Handler {
+	return http.HandlerFunc(func(w http.ResponseWriter, r *http.Request) {
+		s.next = inner
+		s.h.ServeHTTP(w, r)
+	})
+}
+
 // SuiteSig runs all requests and returns the per-request signatures.
 func SuiteSig(wrap func(http.Handler) http.Handler, suite []Req) []string {
 	out := make([]string, len(suite))
